@@ -227,7 +227,30 @@ func runC05InWorker(c c05Case) (c05Result, error) {
 		fill(w.Field(2))
 		fill(cell.Field(0))
 		fill(cell.Field(2))
+		outside := func() error { return nil }
+		var holder reflect.Value
+		switch {
+		case c.Pos == "field":
+			outside = markOutside(c.G, c.X, cell.Field(1), "the struct decoded in place")
+		case (c.Pos == "ptr" || c.Pos == "ptrptr") && di%2 == 1:
+			// the caller prepared the destination: F already points at a value of its
+			// own, which sits between guards and whose fields outside the schema are set
+			holder = reflect.New(reflect.StructOf([]reflect.StructField{{Name: "G0", Type: guard}, {Name: "V", Type: spec.Build(c.G)}, {Name: "G1", Type: guard}})).Elem()
+			fill(holder.Field(0))
+			fill(holder.Field(2))
+			outside = markOutside(c.G, c.X, holder.Field(1), "the value the destination pointer pointed at")
+			p := holder.Field(1).Addr()
+			if c.Pos == "ptrptr" {
+				pp := reflect.New(p.Type())
+				pp.Elem().Set(p)
+				p = pp
+			}
+			cell.Field(1).Set(p)
+		}
 		rerr := codec.Read(avro.NewReadBuf(body), cell.Addr().UnsafePointer())
+		if err := outside(); err != nil {
+			return res, fmt.Errorf("datum %d (%v): decoding %s into %s (%s): %v", di, briefDatum(d), c.X.Kind, c.G.GoString(), c.Pos, err)
+		}
 		check := func(name string, v reflect.Value) error {
 			for i := 0; i < v.Len(); i++ {
 				if v.Index(i).Uint() != canaryByte {
@@ -245,6 +268,15 @@ func runC05InWorker(c c05Case) (c05Result, error) {
 				return res, err
 			}
 		}
+		if holder.IsValid() {
+			for i, n := range []string{"guard before the prepared pointee", "", "guard after the prepared pointee"} {
+				if n != "" {
+					if err := check(n, holder.Field(i)); err != nil {
+						return res, err
+					}
+				}
+			}
+		}
 		if rerr != nil {
 			res.Rejected++
 			continue
@@ -257,7 +289,7 @@ func runC05InWorker(c c05Case) (c05Result, error) {
 		if in.raw {
 			continue
 		}
-		if known {
+		if known && !holder.IsValid() {
 			if err := agree(s, rec, t, false, cell, dirRead, "cell"); err != nil {
 				return res, fmt.Errorf("datum %d (%v): decode of %s into %s (%s) returned no error but F does not hold the datum's value: %v",
 					di, briefDatum(d), c.X.Kind, c.G.GoString(), c.Pos, err)
@@ -265,6 +297,53 @@ func runC05InWorker(c c05Case) (c05Result, error) {
 		}
 	}
 	return res, nil
+}
+
+// markOutside fills the fields of v (a struct of type g) that the record schema x
+// does not name with non-zero values and returns a function that verifies they
+// still hold them: "sibling fields not named in the schema" also exist one level
+// down, in a nested struct decoded in place or behind a pointer the caller prepared.
+func markOutside(g spec.TypeSpec, x ref.Schema, v reflect.Value, where string) func() error {
+	none := func() error { return nil }
+	if x.Kind == "union" {
+		for _, b := range x.Branches {
+			if b.Kind == "record" {
+				x = b
+			}
+		}
+	}
+	if g.K != "struct" || x.Kind != "record" || v.Kind() != reflect.Struct {
+		return none
+	}
+	named := map[string]bool{}
+	for _, f := range x.Fields {
+		named[f.Name] = true
+	}
+	type kept struct {
+		i    int
+		copy reflect.Value
+	}
+	var ks []kept
+	for i, f := range g.Fields {
+		if f.Unexported || i >= v.NumField() || !v.Field(i).CanSet() {
+			continue
+		}
+		if n := f.AvroName(); n != "" && named[n] {
+			continue
+		}
+		junkFill(v.Field(i), 2)
+		cp := reflect.New(v.Field(i).Type()).Elem()
+		cp.Set(v.Field(i))
+		ks = append(ks, kept{i, cp})
+	}
+	return func() error {
+		for _, k := range ks {
+			if !reflect.DeepEqual(k.copy.Interface(), v.Field(k.i).Interface()) {
+				return fmt.Errorf("%s: field %s, which the schema does not name, was changed from %v to %v", where, g.Fields[k.i].Go, k.copy.Interface(), v.Field(k.i).Interface())
+			}
+		}
+		return nil
+	}
 }
 
 // validRepr checks that every bool reachable from v holds a legal bool
@@ -418,6 +497,8 @@ func c05GoTypes() []spec.TypeSpec {
 		spec.TypeSpec{K: "mapk", Key: "int", Elem: &i64},
 		spec.Struct(spec.FieldSpec{Go: "A", T: i64}),
 		spec.Struct(spec.FieldSpec{Go: "A", T: i16}, spec.FieldSpec{Go: "B", T: i16}),
+		// a struct with fields of its own that no schema in the list names, around the one that is named
+		spec.Struct(spec.FieldSpec{Go: "Keep", T: spec.BArray(3)}, spec.FieldSpec{Go: "A", T: i64}, spec.FieldSpec{Go: "Note", T: str}, spec.FieldSpec{Go: "Skipped", JSON: "-", T: i64}),
 		spec.Ptr(i64),
 		// named types with an embedded struct, by value and by pointer
 		cat.Get("EmbedMid").Spec, cat.Get("EmbedPtr").Spec,
